@@ -74,7 +74,7 @@ ob("O-C13-implode", ["C13", "C05", "C09"], S, "c13_implode_one", "implode on one
    inlang={"inputs": ["AnyVal"], "filter": "[$a]|implode", "expect": "no_panic", "doc": "a = the integer code of the counterexample"})
 ob("O-C13-implode2", ["C13", "C05"], S, "c13_implode_two", "implode on two codes: the output is the concatenation of the per-code outputs; the first rejected code ends it with an error; empty input gives the empty string", [STD + "implode"], kind="trait-contract", label="bounded", bound="arrays of <= 2 codes, each code unconstrained", stubs=FMT, tier="thorough")
 ob("O-C13-explode1", ["C13", "C05"], S, "c13_explode_implode_1", "explode then implode is the identity on every byte string of length <= 1 (valid or invalid UTF-8); every emitted code is a scalar value or a negated byte", [STD + "explode", STD + "Explode::next", STD + "implode"], kind="trait-contract", label="bounded", bound="all byte strings of length <= 1 (exhaustive)", stubs=FMT)
-ob("O-C13-explode2", ["C13", "C05"], S, "c13_explode_implode_2", "explode then implode is the identity on every byte string of length <= 2", [STD + "explode", STD + "Explode::next", STD + "implode"], kind="trait-contract", label="bounded", bound="all byte strings of length <= 2 (exhaustive)", stubs=FMT, tier="thorough")
+ob("O-C13-explode2", ["C13", "C05"], S, "c13_explode_implode_2", "explode then implode is the identity on every byte string of length <= 2", [STD + "explode", STD + "Explode::next", STD + "implode"], kind="trait-contract", label="bounded", bound="all byte strings of length <= 2 (exhaustive)", stubs=FMT)
 ob("O-C13-explode3", ["C13"], S, "c13_explode_implode_3", "explode then implode is the identity on every byte string of length <= 3", [STD + "explode", STD + "Explode::next", STD + "implode"], kind="trait-contract", label="bounded", bound="all byte strings of length <= 3 (exhaustive)", stubs=FMT, tier="thorough", timeout=1800)
 ob("O-C09-round", ["C09", "C12", "C05"], S, "c09_round", "ValTx::round (floor/round/ceil) with the rounding function abstracted to any float result y: integers unchanged; finite y in [-2^63, 2^63) becomes exactly that integer; finite y outside goes through decimal text (exact); non-finite y stays a float; non-numbers are an error", [STD + "ValTx::round"], kind="trait-contract", stubs=FMT,
    inlang={"inputs": ["AnyVal", "f64"], "filter": "$b|round", "expect": "int_of_b", "doc": "b = the rounding result y of the counterexample (an integral float is its own round); must print exactly that integer"})
